@@ -12,7 +12,8 @@ Definition ex_oracle : oracle := fun sc r =>
   end.
 Definition ex_request (now : Z) : request :=
   mkQ now (fun _ => 5%N) true (fun _ => Some (true, 10000%Z)) (fun _ => None)
-      (fun r => match r with 0 => [OIncr 1%N 2%Z; OPbHas 9%N] | _ => [OPbAdd 9%N 30000%Z] end).
+      (fun r => match r with 0 => [OIncr 1%N 2%Z; OPbHas 9%N] | _ => [OPbAdd 9%N 30000%Z] end)
+      (fun _ _ => Some 601).
 Definition plain : oracle := fun _ _ => ANone.
 
 (* three requests to one simulator: cold with a restart, warm (HIT) 5 s later, expired 20 s later *)
